@@ -34,7 +34,7 @@ func (zl *Ziplist) Next() []byte {
 	* entire list to know how many items it holds.*/
 	if zl.length == 65535 {
 		firstByte := zl.buf.ReadByte()
-		if firstByte != 0xFE {
+		if firstByte != 0xFF { // ZIP_END, 0xFE is the marker of a 5 bytes prevlen
 			return ReadZiplistEntry2(zl.buf, firstByte)
 		}
 	} else {
